@@ -46,6 +46,19 @@ template <> struct KeyConv<unodb::key_view> {
   static unodb::key_view make(const std::string& k) { return {reinterpret_cast<const std::byte*>(k.data()), k.size()}; }
 };
 
+// Hostile placement of caller-side key buffers: an exact-size heap block, so that AddressSanitizer's redzone starts at
+// the byte after the key. unodb computes on optimistically read node data before validating it; a read past the end of
+// the caller's key that such a computation provokes is visible here (std::string's SSO buffer would hide it).
+struct ExactKey {
+  std::unique_ptr<char[]> buf;
+  size_t n;
+  explicit ExactKey(const std::string& k) : buf(new char[k.size() ? k.size() : 1]), n(k.size()) { std::memcpy(buf.get(), k.data(), k.size()); }
+  template <class Key> Key as() const {
+    if constexpr (std::is_same_v<Key, unodb::key_view>) return unodb::key_view{reinterpret_cast<const std::byte*>(buf.get()), n};
+    else return keyu64(std::string(buf.get(), n));
+  }
+};
+
 struct Held { const std::byte* p; size_t n; std::string copy; int op; std::string key; };
 
 inline void fail(Result& r, const std::string& cls, const std::string& d) {
@@ -92,7 +105,8 @@ struct Runner {
       switch (o.kind) {
         case O_GET: {
           PointEv ev; ev.thread = tid; ev.op = oi; ev.kind = o.kind; ev.key = o.key;
-          const Key k = KeyConv<Key>::make(o.key);
+          const ExactKey xk(o.key);
+          const Key k = xk.template as<Key>();
           op_begin(oi);
           ev.call = stamp();
           {
@@ -117,7 +131,8 @@ struct Runner {
         case O_INSERT: {
           PointEv ev; ev.thread = tid; ev.op = oi; ev.kind = o.kind; ev.key = o.key; ev.value = static_cast<uint64_t>(o.a);
           const std::string val = make_value(static_cast<uint64_t>(o.a), static_cast<size_t>(o.b));
-          const Key k = KeyConv<Key>::make(o.key);
+          const ExactKey xk(o.key);
+          const Key k = xk.template as<Key>();
           const unodb::value_view vv{reinterpret_cast<const std::byte*>(val.data()), val.size()};
           op_begin(oi);
           ev.call = stamp();
@@ -134,7 +149,8 @@ struct Runner {
         }
         case O_REMOVE: {
           PointEv ev; ev.thread = tid; ev.op = oi; ev.kind = o.kind; ev.key = o.key;
-          const Key k = KeyConv<Key>::make(o.key);
+          const ExactKey xk(o.key);
+          const Key k = xk.template as<Key>();
           // The guarantee covers entries removed *concurrently*. A thread that removes the entry itself gives up its own
           // views of it (QSBR may execute the request at once when this thread is the only registered one).
           for (size_t h = held.size(); h-- > 0;)
@@ -153,8 +169,9 @@ struct Runner {
           ev.fwd = o.kind == O_SCAN_RANGE ? (o.key < o.key2) : (o.a != 0);
           ev.halt = o.b;
           ev.visits.reserve(64);
-          const Key k1 = KeyConv<Key>::make(o.key);
-          const Key k2 = KeyConv<Key>::make(o.key2);
+          const ExactKey xk1(o.key), xk2(o.key2);
+          const Key k1 = xk1.template as<Key>();
+          const Key k2 = xk2.template as<Key>();
           auto fn = [&](const unodb::visitor<typename Db::iterator>& v) {
             Visit vis;
             {
